@@ -1,10 +1,11 @@
 (* C04_Model.v — bstree.BsTree (unbalanced binary search tree used as an
    ordered map), transcribed statement by statement from /repo/bstree/bstree.go
-   and generic.go (Compare), as the code IS: including defect #17 of DESIGN §7,
-   Delete decrementing [size] whether or not a node was removed
+   (line numbers below: /repo HEAD, after the two locking repairs 73ab9cb and
+   c6ed9af) and generic.go (Compare), as the code IS: including defect #17 of
+   DESIGN §7, Delete decrementing [size] whether or not a node was removed
 
-       b.root, err = b.root.delete(b, key)
-       b.size--
+       b.root, err = b.root.delete(b, key)        (bstree.go:137)
+       b.size--                                   (bstree.go:138)
 
    which stays unrepaired because bstree_test.go's Example pins it (it deletes
    the keys 0,1,2,3 from {10,-1,2,-4} and expects Size() = 0): known finding
@@ -14,6 +15,11 @@
    tree is a Gallina inductive (DESIGN §3).  [size] is the separate counter of
    the Go struct, updated exactly where the Go code updates it — it is NOT
    computed from the tree.  The locks are not modelled here (C01/C02).
+   Traverse streams the in-order walk from a goroutine over an unbuffered
+   channel to the caller's callback: [traverse] is the in-order list, and the
+   goroutine/channel protocol itself is modelled at the end of this file
+   ([tstep]) and shown to hand exactly that list, in that order, to the
+   callback on every schedule (the C04_traverse_channel theorems of C04_Props).
    No proofs in this file.
 
    The second half of the file is the SPECIFICATION: a comparator-sorted
@@ -27,7 +33,7 @@ Section Model.
   Context {K V : Type}.
   Variable comp : K -> K -> bool.          (* gogu.CompFn[K] *)
 
-  (* generic.go:12-19
+  (* generic.go:11-18
        if comp(a, b) { return 1 } else if comp(b, a) { return -1 }; return 0 *)
   Definition compare (a b : K) : Z :=
     if comp a b then 1 else if comp b a then -1 else 0.
@@ -49,7 +55,7 @@ Section Model.
         else Ok (k, v)
     end.
 
-  (* bstree.go:106-124  func (n *Node) upsert(b, key, val); [size] is b.size,
+  (* bstree.go:105-123  func (n *Node) upsert(b, key, val); [size] is b.size,
      threaded through.  The method dereferences n at once (n.Key), so a nil
      receiver panics; Upsert never calls it on nil (and the theorems show that
      Panic is never produced). *)
@@ -80,7 +86,7 @@ Section Model.
         else Ok (T l k val r, size)                            (* n.Val = val *)
     end.
 
-  (* bstree.go:128-133  for ; n.Left != nil; n = n.Left {}; return n
+  (* bstree.go:127-131  for ; n.Left != nil; n = n.Left {}; return n
      — the receiver is given by its fields (it is non-nil at the only call
      site); the result is the (Key, Val) read off the returned node. *)
   Fixpoint min_node (l : tree) (k : K) (v : V) : K * V :=
@@ -89,8 +95,12 @@ Section Model.
     | T l' k' v' _ => min_node l' k' v'
     end.
 
-  (* bstree.go:146-181  func (n *Node) delete(b, key) returning (node, error);
-     the boolean is "err != nil" (the only error is ErrorNotFound). *)
+  (* bstree.go:144-180  func (n *Node) delete(b, key) returning (node, error);
+     the boolean is "err != nil" (the only error is ErrorNotFound).
+     Case 3 (bstree.go:169-178): min is a pointer into n.Right's subtree, so
+     min.Key / min.Val are read BEFORE the recursive delete unlinks that node;
+     the recursive call searches for min.Key from n.Right again (it ends in
+     case 1 or 2b: the minimum has no left child) and its error is returned. *)
   Fixpoint delete (n : tree) (key : K) : tree * bool :=
     match n with
     | E => (E, true)
@@ -111,8 +121,8 @@ Section Model.
           end
     end.
 
-  (* bstree.go:200-210: in-order; every item is sent on the channel and handed
-     to the callback in that order *)
+  (* bstree.go:199-209  func (n *Node) traverse(b, ch): in-order; each node's
+     Item{Key, Val} is sent on the channel (ch <- ...), in this order *)
   Fixpoint traverse (n : tree) : list (K * V) :=
     match n with
     | E => []
@@ -141,7 +151,7 @@ Section Model.
 
   Definition step (b : bst) (o : op) : bst * out :=
     match o with
-    | Upsert key val =>                                     (* bstree.go:92-104 *)
+    | Upsert key val =>                                     (* bstree.go:92-103 *)
         match root b with
         | E => ({| root := T E key val E; size := size b + 1 |}, ODone)
         | T _ _ _ _ =>
@@ -150,12 +160,13 @@ Section Model.
             | _ => (b, OPanic)
             end
         end
-    | Delete key =>                                         (* bstree.go:134-143 *)
+    | Delete key =>                                         (* bstree.go:134-142 *)
         let '(t', err) := delete (root b) key in
         ({| root := t'; size := size b - 1 |}, ODel err)       (* b.size-- even when err != nil *)
-    | Get key => (b, OGet (get (root b) key))               (* bstree.go:68-74 *)
-    | Size => (b, OSize (size b))                           (* bstree.go:60-66 *)
-    | Traverse => (b, OTrav (traverse (root b)))            (* bstree.go:184-198 *)
+    | Get key => (b, OGet (get (root b) key))               (* bstree.go:69-74 *)
+    | Size => (b, OSize (size b))                           (* bstree.go:61-66 *)
+    | Traverse => (b, OTrav (traverse (root b)))            (* bstree.go:183-197: the sequence of fn(item) calls;
+                                                               see the channel protocol [tstep] below *)
     end.
 
   (* a history: state after, and the outputs in order *)
@@ -248,6 +259,76 @@ Section Model.
   Definition absent_deletes (ops : list op) : nat := absent_deletes_from [] ops.
 
 End Model.
+
+(* ================= Traverse's plumbing (bstree.go:183-197) =================
+
+     ch := make(chan Item[K, V])
+     go func() {                      // PRODUCER
+         b.mu.RLock()
+         n := b.root
+         n.traverse(b, ch)            //   ch <- item, for every node in order
+         b.mu.RUnlock()
+         close(ch)
+     }()
+     for item := range ch {           // CONSUMER (the caller of Traverse)
+         fn(item)
+     }
+
+   A small-step model of the two threads and the channel, for any capacity
+   [cap] (the code has cap = 0; a buffered channel is covered too, so that this
+   harmless change keeps the theorems).  The state records what the producer
+   still has to send ([to_send], initially the in-order list [traverse root]),
+   the channel buffer, whether close(ch) has happened, the sequence of fn calls
+   made so far ([got]) and whether the range loop has ended, i.e. Traverse has
+   returned ([fin]).  Go's channel semantics as assumed here (TRUSTED, language
+   specification "Channel types", "Send statements", "For statements with range
+   clause"): a send on a full (or unbuffered) channel blocks until a receiver
+   takes the value; values are received in the order sent; the range loop
+   receives until the channel is closed AND drained, then ends; a closed
+   channel is never sent on (the producer closes after its last send).
+   The producer holds the read lock from before its first send until after its
+   last one, so no writer changes the tree while the walk is in progress
+   (C01/C02); the callback must not itself call Upsert/Delete (it would wait
+   for the read lock held by the producer, which waits for the callback's
+   loop: deadlock) — an assumption of C04, recorded in the MANIFEST. *)
+Section Chan.
+  Context {A : Type}.
+
+  Record tstate : Type :=
+    { to_send : list A; buf : list A; closed : bool; got : list A; fin : bool }.
+
+  Definition tinit (items : list A) : tstate :=
+    {| to_send := items; buf := []; closed := false; got := []; fin := false |}.
+
+  Inductive tstep (cap : nat) : tstate -> tstate -> Prop :=
+  | t_handoff x p g :                  (* ch <- x meets the consumer waiting in range: fn(x) *)
+      tstep cap {| to_send := x :: p; buf := []; closed := false; got := g; fin := false |}
+                {| to_send := p; buf := []; closed := false; got := g ++ [x]; fin := false |}
+  | t_send x p b g f :                 (* ch <- x into a free buffer slot (never when cap = 0) *)
+      (length b < cap)%nat ->
+      tstep cap {| to_send := x :: p; buf := b; closed := false; got := g; fin := f |}
+                {| to_send := p; buf := b ++ [x]; closed := false; got := g; fin := f |}
+  | t_recv x p b c g :                 (* range takes the oldest buffered value: fn(x) *)
+      tstep cap {| to_send := p; buf := x :: b; closed := c; got := g; fin := false |}
+                {| to_send := p; buf := b; closed := c; got := g ++ [x]; fin := false |}
+  | t_close b g f :                    (* the walk is over: RUnlock; close(ch) *)
+      tstep cap {| to_send := []; buf := b; closed := false; got := g; fin := f |}
+                {| to_send := []; buf := b; closed := true; got := g; fin := f |}
+  | t_exit g :                         (* range sees the channel closed and drained: Traverse returns *)
+      tstep cap {| to_send := []; buf := []; closed := true; got := g; fin := false |}
+                {| to_send := []; buf := []; closed := true; got := g; fin := true |}.
+
+  (* any number of steps, i.e. any schedule of the two threads *)
+  Inductive tsteps (cap : nat) : tstate -> tstate -> Prop :=
+  | ts_refl s : tsteps cap s s
+  | ts_step s1 s2 s3 : tsteps cap s1 s2 -> tstep cap s2 s3 -> tsteps cap s1 s3.
+
+  (* bounds the length of every schedule *)
+  Definition tmeasure (s : tstate) : nat :=
+    2 * length (to_send s) + length (buf s) + (if closed s then 0 else 1) + (if fin s then 0 else 1).
+End Chan.
+
+Arguments tstate A : clear implicits.
 
 Arguments E {K V}.
 Arguments T {K V} l k v r.
